@@ -121,9 +121,9 @@ def key_owner(m, obs):
     ex = m.get("explained_by") or []
     if ex:
         return "%s:%s" % (m["what"], "+".join(sorted(ex)))
-    kinds = ",".join(e["k"] + ("=" + e["new"] if "new" in e else "") + ("<" + e["from"] if "from" in e else "")
-                     for e in obs.get("evs", []))
-    return "%s:%s:%s" % (m["what"], obs.get("mode"), kinds)
+    # class of failing input: clause + stream mode + whether an ownership claim (genuine / forged) is in the history
+    ks = {e["k"] for e in obs.get("evs", [])}
+    return "%s:%s:%s" % (m["what"], obs.get("mode"), "+".join(sorted(ks & {"noc", "forge", "nocother"})) or "plain")
 
 
 def nontrivial(o):
